@@ -60,6 +60,18 @@ from _checker_common import P, C1, C2, G, U, MI
 J = []
 class PostErr(Exception): pass
 class SetupFailed(Exception): pass
+@frozen_type_safe_dataclass
+class Inner:
+    v: int
+def _nested():
+    """what a user __post_init__ may do: build another type-safe instance (here: with a non-conforming field)"""
+    from pedantic.exceptions import PedanticTypeCheckException
+    try:
+        Inner(v='bad')
+        J.append(('inner-accepted',))
+    except PedanticTypeCheckException:
+        pass
+    Inner(v=1)
 '''
 
 
@@ -69,7 +81,7 @@ def gen_class(r, idx):
     ts = r.random() < 0.88
     slots = r.random() < 0.3
     order = r.random() < 0.2
-    post = r.choice(['absent'] * 4 + ['runs', 'runs', 'raises'])
+    post = r.choice(['absent'] * 4 + ['runs', 'runs', 'raises', 'nested'])
     shortcut = ts and not slots and not order and r.random() < 0.3
     local = r.random() < 0.22
     selfref = local or r.random() < 0.3
@@ -84,6 +96,8 @@ def gen_class(r, idx):
         lines.append(f'    {n}: {a}')
     if post == 'runs':
         lines += ['    def __post_init__(self):', f'        J.append(("post", {idx}))']
+    if post == 'nested':
+        lines += ['    def __post_init__(self):', f'        J.append(("post", {idx}))', '        _nested()']
     if post == 'raises':
         lines += ['    def __post_init__(self):', f'        J.append(("post", {idx}))', '        raise PostErr()']
     cls = an
@@ -129,6 +143,14 @@ def load(src, tag):
 def unload(mod, d):
     shutil.rmtree(d, ignore_errors=True)
     sys.modules.pop(mod.__name__, None)
+
+
+def _posts(mod):
+    return len([e for e in mod.J if e[0] == 'post'])
+
+
+def _inner(mod):
+    return any(e[0] == 'inner-accepted' for e in mod.J)
 
 
 def field_terms(cls):
@@ -218,7 +240,7 @@ def execute(mod, clsname, op, post):
         recipe = op['recipe']
         if recipe[0] == 'ctor':
             obj = cls(**build(op['vals']))
-            return {'out': 'INSTANCE' if type(obj) is cls else 'OTHER', 'journal': len(mod.J)}
+            return {'out': 'INSTANCE' if type(obj) is cls else 'OTHER', 'journal': _posts(mod), 'inner': _inner(mod)}
         # an existing instance first (built without validation noise: if that already fails, report it)
         try:
             inst = cls(**build(op['base']))
@@ -228,18 +250,18 @@ def execute(mod, clsname, op, post):
         if recipe[0] == 'copy':
             n = recipe[1]
             obj = getattr(inst, op['path'])(**{n: K.build_val(op['vals'][n])})
-            return {'out': 'INSTANCE' if type(obj) is cls else 'OTHER', 'journal': len(mod.J)}
+            return {'out': 'INSTANCE' if type(obj) is cls else 'OTHER', 'journal': _posts(mod), 'inner': _inner(mod)}
         if recipe[0] == 'mutate':
             getattr(inst, recipe[1]).append(K.U())
         if recipe[0] == 'setattr':
             object.__setattr__(inst, recipe[1], K.build_val(op['vals'][recipe[1]]))
         if op['path'] == 'validate':
             inst.validate_types()
-            return {'out': 'INSTANCE', 'journal': len(mod.J)}
+            return {'out': 'INSTANCE', 'journal': _posts(mod), 'inner': _inner(mod)}
         obj = getattr(inst, op['path'])()
-        return {'out': 'INSTANCE' if type(obj) is cls else 'OTHER', 'journal': len(mod.J)}
+        return {'out': 'INSTANCE' if type(obj) is cls else 'OTHER', 'journal': _posts(mod), 'inner': _inner(mod)}
     except BaseException as e:
-        return {'out': classify(e), 'journal': len(mod.J)}
+        return {'out': classify(e), 'journal': _posts(mod), 'inner': _inner(mod)}
     finally:
         K.INST_FACTORY.clear()
 
@@ -263,17 +285,17 @@ def execute_local(mod, op):
             K.INST_FACTORY[getattr(K, name)] = (lambda c: lambda: _leaf(c))(c)
         return K.build_val
     try:
-        return {'out': mod.scope(op, build), 'journal': len(mod.J)}
+        return {'out': mod.scope(op, build), 'journal': _posts(mod), 'inner': _inner(mod)}
     except BaseException as e:
         if type(e).__name__ == 'SetupFailed':
             e = e.args[0]; pre = 'SETUP:'; j = 0
         else:
-            pre = ''; j = len(mod.J)
+            pre = ''; j = _posts(mod)
         if isinstance(e, PedanticTypeCheckException): k = 'PED:TypeCheck'
         elif isinstance(e, PedanticException): k = 'PED:' + type(e).__name__
         elif type(e).__name__ == 'PostErr': k = 'POST_EXC'
         else: k = 'ESC:' + type(e).__name__
-        return {'out': pre + k, 'journal': j}
+        return {'out': pre + k, 'journal': j, 'inner': _inner(mod)}
     finally:
         K.INST_FACTORY.clear()
 
@@ -325,7 +347,7 @@ def build_cases(rng, n, tag):
                 K.EXTRA_CTX.clear()
             for op in ops:
                 impl = execute(mod, C['cls'], op, C['post'])
-                post = C['post'] if C['post'] != 'raises' else ['raises', 0]
+                post = ['raises', 0] if C['post'] == 'raises' else ('runs' if C['post'] == 'nested' else C['post'])
                 cases.append({'m': 'typesafe',
                               'c': {'env': env, 'fields': [[K.nid(nm), t, op['vals'][nm]] for nm, t in fterms], 'typeSafe': C['ts'],
                                     'post': post, 'path': op['path'], **extra},
@@ -375,13 +397,16 @@ def judge(case, impl, model):
     mj = len(model['journal'])
     corr = ic == mc and (path == 'validate' or impl['journal'] == mj)
     pfail = None
-    if model['claimed'] and (ts or path == 'validate') and mc != 'POST_EXC':
+    raises = case['x']['postk'] == 'raises' and path != 'validate'      # the user's __post_init__ raises: its exception is the outcome
+    if model['claimed'] and (ts or path == 'validate') and not raises:
         if model['spec'] and ic != 'INSTANCE':
             pfail = f'{io} although every field value conforms ({path}) - {describe(case)}'
         elif not model['spec'] and ic == 'INSTANCE':
             pfail = f'an instance was obtained / validate_types() passed although a field value does not conform ({path}) - {describe(case)}'
         elif not model['spec'] and ic != 'PED:TypeCheck':
             pfail = f'{io} instead of PedanticTypeCheckException ({path}) - {describe(case)}'
+    if pfail is None and impl.get('inner'):
+        pfail = f"Inner(v='bad') built inside the user __post_init__ was handed out although its field does not conform ({path}) - {describe(case)}"
     if pfail is None and ts and path != 'validate' and case['x']['postk'] != 'absent' and impl['journal'] != 1:
         pfail = f'the user __post_init__ ran {impl["journal"]} times ({path}) - {describe(case)}'
     finding = None
